@@ -259,11 +259,14 @@ def custom_condition(
         func_content = FUNC_CONTENT[0](
             tokenizer, [tokens], is_load=False, lexer=datapack.lexer, prefix=prefix
         ).parse()
-        if not func_content:
+        if len(func_content) != 1 or not func_content[0].startswith("function "):
+            # `execute if function <name>` is the only command-like condition: a @lazy function
+            # (expanded in place) or a built-in command would be emitted as `execute if say ...`
             raise JMCSyntaxException(
-                f"Function call ({tokens[0].string}) in condition does not result in any command",
+                f"Function call ({tokens[0].string}) in condition does not result in a `function` command",
                 tokens[0],
                 tokenizer,
+                suggestion="A @lazy function or a built-in command cannot be used as a condition",
             )
         return Condition(func_content[0], IF)
 
